@@ -150,7 +150,7 @@ def shard(binpath, seed, sh, n):
         res.note([c0["type"], str(c0["text"])], True, cls=cls, n=sum(len(obs[ci].get("ch", {})) for ci in g))
     if sh == 0:
         for g in groups[:2]:
-            res.sample({"type": cases[g[0]]["type"], "spellings": {cases[ci]["meta"]["spelling"]: cases[ci]["text"][:300] for ci in g},
+            res.sample({"type": cases[g[0]]["type"], "spellings": {cases[ci]["meta"]["spelling"]: str(cases[ci]["text"])[:300] for ci in g},
                         "channels": {cases[ci]["meta"]["spelling"]: obs[ci].get("ch") for ci in g}})
     return res
 
